@@ -57,13 +57,23 @@ impl PvNode {
 
     /// Forwards tapped pool events to the Votor (in order) and waits for quiescence.
     pub async fn pump(&mut self) {
+        self.pump_if(true).await;
+    }
+
+    /// Like [`Self::pump`], but skips the quiescence barrier when the pool emitted nothing and
+    /// `force` is false (the Votor then has no new input).
+    pub async fn pump_if(&mut self, force: bool) {
+        let mut forwarded = false;
         while let Ok(e) = self.tap_rx.try_recv() {
             self.events.push((self.step, e.clone()));
             let _ = self.votor_pool_tx.send(e).await;
+            forwarded = true;
         }
         while self.repair_rx.try_recv().is_ok() {}
-        let a = self.a2a.clone();
-        settle(|| a.len(), 6).await;
+        if forwarded || force {
+            let a = self.a2a.clone();
+            settle(|| a.len(), 4).await;
+        }
     }
 
     pub fn votor_dead(&self) -> Option<String> {
@@ -76,7 +86,7 @@ impl PvNode {
             Ok(r) => Call::Done(r),
             Err(_) => Call::Panicked(take_panics().join(" | ")),
         };
-        self.pump().await;
+        self.pump_if(false).await;
         out
     }
 
@@ -86,7 +96,7 @@ impl PvNode {
             Ok(r) => Call::Done(r.is_ok()),
             Err(_) => Call::Panicked(take_panics().join(" | ")),
         };
-        self.pump().await;
+        self.pump_if(false).await;
         out
     }
 
